@@ -5,6 +5,41 @@ use super::disp_imports::*;
 use super::train_disp::{FreePathStatus, TrainDisp};
 use crate::train::TimedLinkPath;
 
+/// Verification hook (feature `verif-hooks`, off by default; observation only): a thread-local
+/// observer that `run_dispatch` calls with its function-local authority table and blocked-link
+/// vector after every train move (`"advance"`, `"rewind"`), at the end of every iteration of the
+/// outer queue loop (`"iter"`) and once before returning (`"final"`).
+#[cfg(feature = "verif-hooks")]
+pub mod verif_hooks {
+    pub use super::super::disp_structs::{DispAuth, TrainIdx};
+    use std::cell::RefCell;
+
+    pub type DispatchObserver = Box<dyn FnMut(&str, &[Vec<DispAuth>], &[TrainIdx])>;
+
+    thread_local! {
+        static DISPATCH_OBSERVER: RefCell<Option<DispatchObserver>> = RefCell::new(None);
+    }
+
+    /// Install (or remove, with `None`) the observer of the current thread; returns the previous one.
+    pub fn set_dispatch_observer(observer: Option<DispatchObserver>) -> Option<DispatchObserver> {
+        DISPATCH_OBSERVER.with(|cell| std::mem::replace(&mut *cell.borrow_mut(), observer))
+    }
+
+    pub(super) fn observe(phase: &str, link_disp_auths: &[Vec<DispAuth>], links_blocked: &[TrainIdx]) {
+        DISPATCH_OBSERVER.with(|cell| {
+            // the observer is taken out while it runs so that a re-entrant call cannot double-borrow
+            let taken = cell.borrow_mut().take();
+            if let Some(mut observer) = taken {
+                observer(phase, link_disp_auths, links_blocked);
+                let mut slot = cell.borrow_mut();
+                if slot.is_none() {
+                    *slot = Some(observer);
+                }
+            }
+        });
+    }
+}
+
 #[readonly::make]
 #[derive(Debug, PartialEq, Clone, Copy)]
 struct TrainDispNext {
@@ -168,6 +203,8 @@ pub fn run_dispatch<N: AsRef<[Link]>>(
                 &mut links_blocked,
                 network,
             ) {
+                #[cfg(feature = "verif-hooks")]
+                verif_hooks::observe("advance", &link_disp_auths, &links_blocked);
                 (has_deadlock, train_idx_begin) = check_deadlock(
                     &mut train_disps,
                     &links_blocked,
@@ -200,6 +237,8 @@ pub fn run_dispatch<N: AsRef<[Link]>>(
                 // If there was deadlock and the train is blocked, rewind and break
                 if has_deadlock && train_curr.is_blocked() {
                     train_curr.rewind(&mut link_disp_auths, &mut links_blocked, network);
+                    #[cfg(feature = "verif-hooks")]
+                    verif_hooks::observe("rewind", &link_disp_auths, &links_blocked);
                     (has_deadlock, train_idx_begin) = check_deadlock(
                         &mut train_disps,
                         &links_blocked,
@@ -246,7 +285,11 @@ pub fn run_dispatch<N: AsRef<[Link]>>(
                 debug_assert!(train_idx != train_idx_curr);
             });
         }
+        #[cfg(feature = "verif-hooks")]
+        verif_hooks::observe("iter", &link_disp_auths, &links_blocked);
     }
+    #[cfg(feature = "verif-hooks")]
+    verif_hooks::observe("final", &link_disp_auths, &links_blocked);
     if !train_idxs_blocked.is_empty() {
         bail!("The following trains got stuck! {:?}", train_idxs_blocked);
     }
